@@ -18,6 +18,7 @@ def toggles : List (String × (Defects → Defects)) := [
   ("C13-on-needs-whitespace", fun D => { D with onNeedsWhitespace := false }),
   ("C13-fragment-named-on", fun D => { D with fragmentNamedOn := false }),
   ("C13-empty-vardefs", fun D => { D with emptyVarDefs := false }),
+  ("C13-empty-string-before-quote", fun D => { D with emptyStringBeforeQuote := false }),
   ("C13-block-escaped-quotes", fun D => { D with blockEscapeKept := false }),
   ("C13-block-short-blank-line", fun D => { D with shortBlankLineKept := false }),
   ("C13-int-as-float", fun D => { D with intAsFloat := false }),
